@@ -1257,9 +1257,9 @@ Section ExFacts.
     { rewrite map_length, !length_mat_apply. congruence. }
     intros i Hi. rewrite length_mat_apply, Lh' in Hi.
     apply (f_equal (fun l => nth i l f0)) in Heig.
-    rewrite (nth_indep _ f0 ((fun y => lam * y)%F f0)) in Heig
+    rewrite (nth_indep (map _ (mat_apply s x)) f0 ((fun y => lam * y)%F f0)) in Heig
       by (rewrite map_length, length_mat_apply; lia).
-    rewrite (nth_indep (map _ _) f0 ((fun y => (lam + c) * y)%F f0))
+    rewrite (nth_indep (map _ (mat_apply s x)) f0 ((fun y => (lam + c) * y)%F f0))
       by (rewrite map_length, length_mat_apply; lia).
     rewrite map_nth in *. rewrite !nth_mat_apply in *.
     rewrite Forall_forall in Rh, Rs, Rh'.
